@@ -1,8 +1,16 @@
 (* Proofs about `llfree_get` of the sequential upper-allocator model (Upper.v). *)
-From LLF Require Import Base Row Bitfield Lower Spec Sorted Upper UpperInvDef LowerFacts UpperGetLoops.
+From LLF Require Import Base Row Bitfield Lower Spec Sorted Upper UpperInvDef LowerFacts UpperPrims UpperGetLoops.
 
 Ltac inv H := inversion H; subst; clear H.
-Ltac splits := repeat match goal with |- _ /\ _ => split end.
+
+(* keep the kernel from unrolling the fuel-driven loops when it checks conversions at Qed *)
+Local Strategy 1000 [locals_steal_any locals_demote_any steal_any_loop demote_any_loop steal_slots demote_slots
+  get_local search_best sb_loop sb_try search_loop lower_get_opt lower_get lower_get_at lget_low
+  trees_put trees_sync trees_steal trees_reserve_or_steal trees_unreserve
+  locals_get locals_put locals_swap locals_set_start].
+Local Strategy 500 [steal_global reserve_or_steal steal_local demote_local].
+Local Strategy 400 [search_and_reserve].
+Local Strategy 300 [get_at].
 
 (* ============================================================================================== *)
 (* C13: the class returned by a successful get is the requested class, or a class for which the
@@ -261,7 +269,7 @@ Section LgetLow.
     | Some f => aligned f k = true /\ f + pow2 k <= frames (low u)
     end ->
     lget_low g u row k frame = (r, u') ->
-    trees u' = trees u /\ locals u' = locals u /\ dflt u' = dflt u /\
+    u' = with_low u (low u') /\
     match r with
     | Ok f =>
         match frame with Some f0 => f = f0 | None => f / TF = row_tree g row end /\
@@ -280,7 +288,7 @@ Section LgetLow.
   Proof.
     intros HL Hk Hpre H. unfold lget_low in H.
     destruct (lower_get_opt g (low u) row k frame) as [r0 l'] eqn:E. inv H.
-    cbn [with_low trees locals dflt low]. splits; try reflexivity.
+    cbn [with_low trees locals dflt low]. split; [reflexivity|].
     unfold lower_get_opt in E. destruct frame as [f0|].
     - destruct Hpre as [Ha Hb].
       destruct (lower_get_at g (low u) f0 k) as [r1 l1] eqn:E1.
@@ -298,17 +306,7 @@ Section LgetLow.
 End LgetLow.
 
 (* ============================================================================================== *)
-(* policy hypotheses (local copies; UpperPrims.v defines the same names) *)
-Definition pol_kind (p : pol) : N := match p with PMatch _ => 0 | PDemote => 1 | PSteal => 2 | PInvalid => 3 end.
-Definition pol_refl_match (policy : N -> N -> N -> pol) : Prop :=
-  forall c f, pol_is_match (policy c c f) = true.
-Definition pol_kind_indep (policy : N -> N -> N -> pol) : Prop :=
-  forall r t f f', pol_kind (policy r t f) = pol_kind (policy r t f').
-Definition pol_never_invalid (policy : N -> N -> N -> pol) : Prop :=
-  forall r t f, pol_is_invalid (policy r t f) = false.
-(* a slot demoted from class b into class a keeps the tree's class c: U4 needs Demote(a,b), keeps(b,c) => keeps(a,c) *)
-Definition pol_demote_trans (policy : N -> N -> N -> pol) : Prop :=
-  forall a b c f f', policy a b f = PDemote -> pol_keeps (policy b c f') = true -> pol_keeps (policy a c f') = true.
+(* policy hypotheses: pol_refl_match, pol_kind_indep, pol_demote_trans, pol_never_invalid are defined in UpperPrims.v *)
 
 (* the ordered policies of the repository (simple / movable / zeroed): requested > target: Steal,
    requested < target: Demote, equal: Match(m free) *)
